@@ -1005,6 +1005,26 @@ func callBuiltin(caller *frame, callpos token.Pos, fn *ssa.Builtin, args []value
 		}
 		return nil
 
+	case "clear":
+		switch m := args[0].(type) {
+		case *omap:
+			if m != nil {
+				if caller.i.hb != nil {
+					caller.i.hb.accessObj(caller, m, true)
+				}
+				for _, e := range m.live() {
+					m.delete(e.key)
+				}
+			}
+		case []value:
+			for i := range m {
+				m[i] = zeroLike(m[i])
+			}
+		default:
+			panic(fmt.Sprintf("clear: illegal operand: %T", m))
+		}
+		return nil
+
 	case "print", "println": // print(any, ...)
 		ln := fn.Name() == "println"
 		var buf bytes.Buffer
@@ -1526,4 +1546,22 @@ func fandbits[F floaty](x, y F) F {
 		*(*uint64)(unsafe.Pointer(&x)) &= *(*uint64)(unsafe.Pointer(&y))
 	}
 	return x
+}
+
+func zeroLike(v value) value {
+	switch v.(type) {
+	case bool:
+		return false
+	case int:
+		return int(0)
+	case int64:
+		return int64(0)
+	case string:
+		return ""
+	case iface:
+		return iface{}
+	case *value:
+		return (*value)(nil)
+	}
+	panic(fmt.Sprintf("clear: unsupported slice element %T", v))
 }
